@@ -73,11 +73,17 @@ pub fn gen_admin(rng: &mut Rng, thorough: bool) -> Vec<String> {
 // ------------------------------------------------------------------------------------------------
 // C11: code registry and addresses
 
+const OWN_CHKS: [&str; 2] = [
+    "11*32",
+    "0102030405060708090a0b0c0d0e0f101112131415161718191a1b1c1d1e1f20",
+];
+
 pub fn gen_codes(rng: &mut Rng, thorough: bool) -> Vec<String> {
     let app = App::default();
     let mut ops: Vec<String> = vec![];
     let mut body: Vec<String> = vec![];
     let mut ids: Vec<u64> = vec![]; // ids the model/impl will hold (tracked by the generator to bind addresses)
+    let mut own_chk: Vec<(u64, String)> = vec![]; // ids stored with their own checksum
     let tags = ["A", "B", "C", "D"];
     let big = u64::MAX;
     let nstore = rng.range(2, if thorough { 7 } else { 5 });
@@ -85,7 +91,14 @@ pub fn gen_codes(rng: &mut Rng, thorough: bool) -> Vec<String> {
     for _ in 0..nstore {
         let r = rng.below(100);
         let tag = rng.pick(&tags);
-        if r < 35 {
+        if r < 8 {
+            // a code that carries its own checksum (Contract::checksum)
+            if let Some(n) = next(&ids) {
+                ids.push(n);
+                own_chk.push((n, rng.pick(&OWN_CHKS).to_string()));
+            }
+            body.push(format!("store-c {} {}", tag, own_chk.last().map(|x| x.1.clone()).unwrap_or_else(|| OWN_CHKS[0].to_string())));
+        } else if r < 35 {
             if let Some(n) = next(&ids) {
                 ids.push(n);
             }
@@ -209,6 +222,21 @@ pub fn gen_codes(rng: &mut Rng, thorough: bool) -> Vec<String> {
             }
         }
     }
+    for chk in OWN_CHKS.iter() {
+        let chk_hex = hex(&unhex(chk));
+        for who in ["u1", "u2"] {
+            for s in ["aa", "bb"] {
+                ops.push(format!(
+                    "bind2x {} {} {} {}",
+                    chk_hex,
+                    who,
+                    s,
+                    salted_addr(&app, &unhex(chk), &app.api().addr_make(who).to_string(), &unhex(s))
+                ));
+            }
+        }
+    }
+    let _ = &own_chk;
     ops.extend(body);
     ops
 }
